@@ -18,6 +18,19 @@ namespace {
 
 typedef Gudhi::Simplex_tree<Gudhi::Simplex_tree_options_default> ST;
 typedef Gudhi::Simplex_tree<Gudhi::Simplex_tree_options_full_featured> STF;
+// stable simplex handles: the tree is node-based and the cache holds another kind of handle, the sort runs on other iterators
+struct Opt_stable_handles {
+  typedef Gudhi::linear_indexing_tag Indexing_tag;
+  typedef int Vertex_handle;
+  typedef double Filtration_value;
+  typedef std::uint32_t Simplex_key;
+  static const bool store_key = true;
+  static const bool store_filtration = true;
+  static const bool contiguous_vertices = false;
+  static const bool link_nodes_by_label = false;
+  static const bool stable_simplex_handles = true;
+};
+typedef Gudhi::Simplex_tree<Opt_stable_handles> STS;
 
 struct BigComplex {
   int n;
@@ -172,6 +185,21 @@ void case_big(vh::Case& c) {
     uint64_t h = sequence_hash_and_check(c, st, "opts=full", l2);
     if (c.failed) return;
     hashes.insert(h);
+  }
+  {  // a third option set (stable simplex handles), sorted under two thread limits
+    STS st; vh::Rng r2(vh::hash_mix(c.k, 77));
+    build(st, b, r2, 2);
+    for (int lim : {16, 3}) {
+#ifdef GUDHI_USE_TBB
+      tbb::global_control gc(tbb::global_control::max_allowed_parallelism, lim);
+#endif
+      st.clear_filtration();
+      size_t l2 = 0;
+      uint64_t h = sequence_hash_and_check(c, st, "opts=stable,limit=" + vh::str(lim), l2);
+      if (c.failed) return;
+      hashes.insert(h);
+      c.count("cmp.big_sort_stable_handles");
+    }
   }
   c.count("info.settings_run", settings);
   c.count("info.distinct_worker_threads_seen_max", 0);
